@@ -2038,7 +2038,8 @@ func (ctx Ctx) stmtInBlock(s ast.Stmt, usage ExprValUsage) (coq.Binding, bool) {
 	case *ast.IfStmt:
 		return ctx.ifStmt(s, []ast.Stmt{}, usage), true
 	case *ast.BlockStmt:
-		return coq.NewAnon(ctx.blockStmt(s, usage)), true
+		// a block statement is a scope: what it declares ends with it
+		return coq.NewAnon(coq.ParenExpr{X: ctx.blockStmt(s, usage)}), true
 	}
 	// For everything else, we generate the statement and possibly tell the caller
 	// that this is not yet finalized.
